@@ -18,7 +18,7 @@ LOC_BASE = 0x7A000000
 
 
 class Result(object):
-    __slots__ = ("regs", "mem", "writes", "calls", "exit", "path", "fuel_out", "undefined")
+    __slots__ = ("regs", "mem", "writes", "calls", "exit", "path", "fuel_out", "undefined", "assign_seq")
 
     def observable(self, regs=None):
         return (tuple(self.writes), tuple(self.calls), self.exit, tuple(sorted((str(k), v) for k, v in self.regs.items() if regs is None or k in regs)))
@@ -44,18 +44,14 @@ class Interp(object):
             self.events.append((name, tuple(args), val))
         return val
 
-    def compile(self, e, ids):
-        key = (e, tuple(ids))
-        f = self.cache.get(key)
-        if f is None:
-            f = refsem.compile_expr(e, ids, loc=self.locval, xcall=self._xcall)
-            self.cache[key] = f
-        return f
-
     def ev(self, e, regs, memf):
-        ids = sorted(refsem.free_ids(e), key=lambda x: x.name)
-        f = self.compile(e, ids)
-        return f(tuple(regs[i] for i in ids), memf)
+        ent = self.cache.get(e)
+        if ent is None:
+            ids = tuple(sorted(refsem.free_ids(e), key=lambda x: x.name))
+            ent = (ids, refsem.compile_expr(e, list(ids), loc=self.locval, xcall=self._xcall))
+            self.cache[e] = ent
+        ids, f = ent
+        return f(tuple([regs[i] for i in ids]), memf)
 
     def run(self, ircfg, head, regs, mem=None, fuel=64, irdst=None):
         """regs: dict ExprId -> int (every identifier the program reads must be present);
@@ -67,6 +63,8 @@ class Interp(object):
         res.writes, res.calls, res.path = [], [], []
         res.fuel_out = False
         res.undefined = False
+        res.assign_seq = {}
+        seq = 0
         dm = self.default_mem
 
         def memf(ps, a):
@@ -109,6 +107,8 @@ class Interp(object):
                             nxt = val
                         else:
                             regs[dst] = val
+                            seq += 1
+                            res.assign_seq[dst] = seq
                     for addr, size, val in sorted(newmem):
                         res.writes.append((addr, size, val))
                         for i in range(size // 8):
